@@ -216,6 +216,14 @@ impl Insert {
             }
             new_keys_set.insert(keys);
         }
+        // A table cannot hold more than 65536 rows (the limit that
+        // `Table::read_rows` enforces when the table is read back).
+        if rows_map.len() + self.new_rows.len() > 65536 {
+            invalid_input!(
+                "Table {:?} cannot hold more than 65536 rows",
+                self.table_name
+            );
+        }
         // Insert the new rows into the table.
         for values in self.new_rows.into_iter() {
             let keys: Vec<Value> = key_indices
